@@ -22,7 +22,8 @@ Verdict(r) ==
   LET rows == r.obs.q.rows
       got  == { rows[i][1] : i \in 1 .. Len(rows) }
       want == IF r.op = "stamp" THEN { W.nodes[n].name : n \in Nodes }
-              ELSE { W.nodes[n].name : n \in { m \in Nodes : Holds(r.op, T(m), r.a, r.b) } }
+              \* (wall: the interval is in wall-clock seconds of the zone - the days on which the offset changes)
+              ELSE { W.nodes[n].name : n \in { m \in Nodes : Holds(r.op, IF r.wall THEN T(m) + ZoneOffAt(r.off, T(m)) ELSE T(m), r.a, r.b) } }
       stampOk == r.op # "stamp" \/
                  \A i \in 1 .. Len(rows) : \A n \in Nodes : W.nodes[n].name = rows[i][1] => rows[i][2] = StampText(T(n), ZoneOffAt(r.off, T(n)))
       y == IF r.obs.q.timed_out THEN "timeout"
